@@ -100,6 +100,20 @@ def _offchain_dirty(t):
     return any(b["dirty"] and a not in ch for a, b in t["blocks"].items())
 
 
+def _diff(model, impl):
+    """the fields of the two views that differ, as symmetric differences"""
+    out = []
+    for tname, m, i in zip(("VBK", "BTC"), (model or "").split(" | "), (impl or "").split(" | ")):
+        fm = dict(x.split("=", 1) for x in m.split() if "=" in x)
+        fi = dict(x.split("=", 1) for x in i.split() if "=" in x)
+        for k in sorted(set(fm) | set(fi)):
+            if fm.get(k) != fi.get(k):
+                sm, si = set((fm.get(k) or "-").split(",")), set((fi.get(k) or "-").split(","))
+                out.append("%s.%s model-only=%s impl-only=%s" % (tname, k, ",".join(sorted(sm - si)[:8]) or "-",
+                                                                 ",".join(sorted(si - sm)[:8]) or "-"))
+    return "; ".join(out) or "model=%s impl=%s" % (model, impl)
+
+
 def correspondence(ctx, model, sc, res, stats, name="model_spfin.txt"):
     """-> [(history, pos, text)] of disagreements between sp_finalize (model) and the library"""
     lines, expect = [], {}
@@ -134,6 +148,17 @@ def correspondence(ctx, model, sc, res, stats, name="model_spfin.txt"):
             stats["spcorr_order_dependent_skipped"] += 1
             continue
         stats["spcorr_compared"] += 1
+        v = pre["vbk"]
+        tip_h, root_h = v["blocks"][v["best"]]["h"], v["blocks"][v["root"]]["h"]
+        if tip_h >= pre["cfg"]["vbk_maxreorg"]:
+            stats["spcorr_vbk_window_reached"] += 1
+            req = max(root_h, tip_h - pre["cfg"]["vbk_maxreorg"])
+            if pre["refs"] and min(pre["refs"]) <= req:
+                stats["spcorr_vbk_stopped_by_bound"] += 1     # boundary: finalization refused because of the BTC tip's refs
+            if pre["refs"] and min(pre["refs"]) == req:
+                stats["spcorr_vbk_bound_equal_requested"] += 1
+            if pre["refs"] and min(pre["refs"]) == req + 1:
+                stats["spcorr_vbk_bound_just_above_requested"] += 1
         if pre["vbk"]["root"] != post["vbk"]["root"]:
             stats["spcorr_vbk_root_moved"] += 1
         if sum(b_["final"] for b_ in post["vbk"]["blocks"].values()) > sum(b_["final"] for b_ in pre["vbk"]["blocks"].values()):
@@ -145,5 +170,5 @@ def correspondence(ctx, model, sc, res, stats, name="model_spfin.txt"):
         if pre["btc"] == post["btc"]:
             stats["spcorr_btc_unchanged"] += 1
         if a != impl:
-            bad.append((h, pos, "corr:Store.StackDefs.sp_finalize model=%s impl=%s" % (a, impl)))
+            bad.append((h, pos, "corr:Store.StackDefs.sp_finalize history=%s step=%s %s" % (h, pos, _diff(a, impl))))
     return bad
